@@ -357,6 +357,8 @@ def make_builtins(I):
                 return b[n]
         if v is None:
             return b['NoneType']
+        if isinstance(v, Model) and getattr(v, 'py_type', None) is not None:
+            return v.py_type
         raise Unsupported(f'type() of {type(v).__name__}')
 
     def _round(v, nd=None):
